@@ -278,6 +278,7 @@ def _eval(exe, job, d, res):
     res["info"]["status"] = o.status
     if o.wall_killed:
         res["state"] = "inconclusive"
+        res["why"] = "wall watchdog"
         return res
     if o.san:
         # a big-endian object is parsed with little-endian accessors (no EI_DATA test): the wild offsets that result crash
@@ -320,7 +321,9 @@ def _eval(exe, job, d, res):
     if job["otype"] == "hex":
         img, meta, errs = decode.ihex(data)
         if errs:
-            v("hex-malformed", errs[0])
+            res["state"] = "inconclusive"      # the HEX container itself is C03's subject
+            res["why"] = "hex file malformed: " + errs[0]
+            return res
     else:
         img, meta, errs = decode.rawbin(data, job["org"])
     syms = {}
@@ -505,7 +508,7 @@ def consume(run, r, stats):
     stats["state_" + str(st)] = stats.get("state_" + str(st), 0) + 1
     stats["class_" + job["cls"]] = stats.get("class_" + job["cls"], 0) + 1
     if st == "inconclusive":
-        run.inconc("wall watchdog", {"cls": job["cls"]})
+        run.inconc(r.get("why", "?"), {"cls": job["cls"], "cpu": job["cpu"], "program": source(job)})
         return
     if st == "linked":
         info = r["info"]
